@@ -901,6 +901,15 @@ func ruleWrapFileLoop(p *Prog, r *Report) {
 				if isCallTo(ci.Common(), "os.Open") {
 					open = ci
 				}
+				// or an unexported module helper that opens the file (returns an *os.File obtained from os.Open)
+				if g := staticCallee(ci.Common()); g != nil && p.InModule(g) && !p.Exported(g) && g.Signature.Results().Len() > 0 &&
+					typeStr(g.Signature.Results().At(0).Type()) == "*os.File" {
+					for h := range p.Reach(g) {
+						if !p.InModule(h) && extName(h) == "os.Open" {
+							open = ci
+						}
+					}
+				}
 			}
 		})
 		if n != 1 || open == nil {
